@@ -325,15 +325,56 @@ def nested_bare_repeat(tree):
             return out
         return [items]
 
+    UNIVERSE = set(chr(i) for i in range(128))
+    CATS = {'CATEGORY_SPACE': set(' \t\n\r\f\v'), 'CATEGORY_DIGIT': set('0123456789'),
+            'CATEGORY_WORD': set('abcdefghijklmnopqrstuvwxyzABCDEFGHIJKLMNOPQRSTUVWXYZ0123456789_')}
+
+    def first_chars(node):
+        """ASCII characters a single-character atom can match (None: not a single-character atom)."""
+        op, av = node
+        if op is C.LITERAL:
+            return set([chr(av)]) if av < 128 else set()
+        if op is C.NOT_LITERAL:
+            return UNIVERSE - set([chr(av)])
+        if op is C.ANY:
+            return UNIVERSE - set('\n')
+        if op is C.IN:
+            out = set()
+            neg = False
+            for o, a in av:
+                if o is C.NEGATE:
+                    neg = True
+                elif o is C.LITERAL and a < 128:
+                    out.add(chr(a))
+                elif o is C.RANGE:
+                    out |= set(chr(i) for i in range(a[0], min(a[1], 127) + 1))
+                elif o is C.CATEGORY:
+                    nm = str(a)
+                    if nm.startswith('CATEGORY_NOT_'):
+                        out |= UNIVERSE - CATS.get('CATEGORY_' + nm[len('CATEGORY_NOT_'):], set())
+                    else:
+                        out |= CATS.get(nm, set())
+            return UNIVERSE - out if neg else out
+        return None
+
     def walk(sub):
         for node in sub:
             op, av = node
             if op in (C.MAX_REPEAT, C.MIN_REPEAT):
                 body = av[2]
                 if av[1] == C.MAXREPEAT:
-                    for alt in alternatives(body):
+                    alts = alternatives(body)
+                    for alt in alts:
                         if len(alt) == 1 and unbounded(alt[0]):
                             return 'alternative is a bare repeat'
+                    # two alternatives of a repeated group that can both consume the same single character make the number of
+                    # ways to split a run of such characters exponential (`(.|\\s)*`: a blank is matched by either branch)
+                    singles = [(alt, first_chars(alt[0])) for alt in alts if len(alt) == 1 and first_chars(alt[0]) is not None]
+                    for i in range(len(singles)):
+                        for j in range(i + 1, len(singles)):
+                            common = singles[i][1] & singles[j][1]
+                            if common:
+                                return 'two single-character alternatives of a repeated group overlap on %r' % ''.join(sorted(common))[:12]
                 r = walk(body)
                 if r:
                     return r
